@@ -103,3 +103,84 @@ Definition OB (cur : N) (calls : list call) (hev dev : list (N * N)) (res : N) :
   {| o_cursor := cur; o_calls := calls; o_hev := hev; o_dev := dev; o_res := res |}.
 (* n junk blobs of kind k (bulk filler for heights with more than batch_size ids) *)
 Definition JN (k : N) (n : nat) : list blob := repeat (BJunk k) n.
+
+(* ==== ticks during catch-up: correspondence check for the two-channel loop (Model/Retriever.v, lturn) ====
+   The harness wakes the real RetrieveLoop with one signal while it is quiescent, and its DA double sends
+   DA-block ticks (non-blocking sends on m.retrieveCh, what SyncLoop's ticker does) from inside scripted
+   GetIDs calls, i.e. while iterations run; it then waits until the loop is quiescent again (= one segment).
+   Per GetIDs call it records whether m.retrieveCh held a value on entry and whether it sent a tick during
+   the call.  From the first GetIDs call of an iteration the check reads off which channel `select` took
+   (the only run-time choice), feeds it to [lturn] and demands that the model — every pending wake-up
+   served, token re-armed after every passed height — explains exactly the calls that were seen. *)
+Record tseg := { ts_seen : list (bool * bool);  (* per GetIDs call: (len(retrieveCh) = 1 on entry, tick sent during the call) *)
+                 ts_obs : obs }.                (* at quiescence: cursor, all DA calls, events; o_res 3 = loop dead, else 0 *)
+Record tcase := { tc_cfg : cfg; tc_da : list hinfo; tc_segs : list tseg }.
+
+Definition n_getids (r : iter_rec) : nat :=
+  length (filter (fun cl => match cl with CGetIDs _ => true | _ => false end) (i_calls r)).
+
+(* within one iteration nobody reads retrieveCh: what a later GetIDs call sees is what the earlier one saw or sent *)
+Fixpoint seen_chain (l : list (bool * bool)) : bool :=
+  match l with
+  | (s0, r0) :: (((s1, _) :: _) as tl) => Bool.eqb s1 (s0 || r0) && seen_chain tl
+  | _ => true
+  end.
+
+(* errors: 20 out of fuel; 21 DA calls while the model's loop waits with both channels empty; 22 the model has a
+   wake-up pending (it WILL iterate) but the implementation made no further DA call: the loop stalled;
+   23 what was left in retrieveCh is explained by neither choice of select; 24 the GetIDs calls of one
+   iteration are fewer than the model's or see retrieveCh change by itself *)
+Fixpoint drive (fuel : nat) (c : cfg) (ls : lstate) (seen : list (bool * bool)) (racc : list iter_rec)
+  : lstate * list iter_rec * list N :=
+  match fuel with
+  | O => (ls, racc, [20])
+  | S f =>
+      if negb (l_tick ls || l_tok ls) then (ls, racc, match seen with [] => [] | _ => [21] end)
+      else match seen with
+           | [] => (ls, racc, [22])
+           | (s0, _) :: _ =>
+               let '(pick, feas) := if l_tick ls then (if s0 then (false, l_tok ls) else (true, true))
+                                    else (false, negb s0 && l_tok ls) in
+               let '(_, r, _) := iterate c (l_scan ls) in
+               let n := n_getids r in
+               let mine := firstn n seen in
+               let '(ls1, recs) := lturn RNonBlocking c ls {| t_pick_tick := pick; t_tick := existsb snd mine |} in
+               if negb feas then (ls, racc, [23])
+               else if negb (Nat.eqb (length mine) n && Nat.ltb 0 n && seen_chain mine) then (ls, racc, [24])
+               else drive f c ls1 (skipn n seen) (rev_append recs racc)
+           end
+  end.
+
+Fixpoint run_segs (i : N) (c : cfg) (ls : lstate) (segs : list tseg) : list N :=
+  match segs with
+  | [] => []
+  | sg :: r =>
+      (* the harness's signal: a non-blocking send on retrieveCh while the loop waits *)
+      let ls0 := {| l_scan := l_scan ls; l_tick := true; l_tok := l_tok ls; l_stuck := l_stuck ls |} in
+      let '(ls1, racc, errs) := drive (S (length (ts_seen sg))) c ls0 (ts_seen sg) [] in
+      let recs := rev racc in
+      let evs := flat_map i_events recs in
+      let m := {| o_cursor := s_cursor (l_scan ls1); o_calls := flat_map i_calls recs;
+                  o_hev := hev_of evs; o_dev := dev_of evs; o_res := 0 |} in
+      match errs with
+      | [] => obs_diff i [m] [ts_obs sg] ++ run_segs (i + 1) c ls1 r
+      | _ => map (fun e => 100 * i + e) errs      (* the model cannot follow any further *)
+      end
+  end.
+
+Definition check_tcase (t : tcase) : list N :=
+  run_segs 0 (tc_cfg t) (linit (tc_cfg t) (tc_da t) false) (tc_segs t).
+
+Fixpoint tmismatches_from (i : N) (cs : list tcase) : list (N * list N) :=
+  match cs with
+  | [] => []
+  | c :: r => match check_tcase c with
+              | [] => tmismatches_from (i + 1) r
+              | l => (i, l) :: tmismatches_from (i + 1) r
+              end
+  end.
+
+(* compact constructors for the generated tick cases *)
+Definition HE : hinfo := HI [] [OOk].                              (* an empty height, served at once *)
+Definition SN (n : nat) : list (bool * bool) := repeat (false, false) n.   (* n calls: nothing in retrieveCh, no tick *)
+Definition GI (h : N) (n : nat) : list call := map (fun i => CGetIDs (h + N.of_nat i)) (seq 0 n).   (* GetIDs h .. h+n-1 *)
